@@ -404,9 +404,12 @@ def check_fit_relations(inp) -> list:
                 out.append(f"order {o}: zero forces give non-zero force constants")
         if len(orders) == 1:
             n = orders[0]
-            s = 1.7
-            Sc, _ = fit(s * d, s ** (n - 1) * f1)
-            cmp(Sc, A, "fit changes under (u, f) -> (s u, s^(n-1) f)")
+            for s in (1.7, 1e-4):          # also a badly scaled dataset (other units): no absolute thresholds allowed
+                Sc, _ = fit(s * d, s ** (n - 1) * f1)
+                cmp(Sc, A, f"fit changes under (u, f) -> (s u, s^(n-1) f) with s = {s}")
+        tiny = 1e-9
+        Tn, _ = fit(d, tiny * f1)
+        cmp(Tn, {o: tiny * A[o] for o in orders}, "fit not linear in forces for a tiny factor (1e-9)")
         for bsz in (1, 2, d.shape[0] + 5):
             Bb, _ = fit(d, f1, batch_size=bsz)
             cmp(Bb, A, f"fit depends on batch_size={bsz}", tol=1e-7)
